@@ -31,6 +31,7 @@ def b64(b):
 
 class SpecGen:
     def __init__(self, dump, rng):
+        self.deep = False      # C04 sets it: raw opaques in untyped SyncML / DRMREL elements
         self.d, self.rng, self.T = dump, rng, dump['tables']
         self.hits = set()
 
@@ -142,6 +143,14 @@ class SpecGen:
                         out += self.switch('attr', rng.choice(pages), force=True)
                     out += (bytes([tok]) + var + b'\x00') if tok < 0x80 else (bytes([tok]) + mb(self.strref(var)))
                     value += b'$(' + var + suffix + b')'
+                elif k < 0.50:
+                    # extension = [switchPage] EXT_0|1|2: a single-octet extension carries no text in any language
+                    # (reserved in WML, not defined elsewhere) - a piece that delivers nothing, possibly after one
+                    # that did; its switchPage only changes the attribute code page
+                    if rng.random() < 0.4:
+                        pages = sorted({x[2] for x in attrs}) if attrs else [0]
+                        out += self.switch('attr', rng.choice(pages), force=True)
+                    out += bytes([rng.choice([0xC0, 0xC1, 0xC2])])
                 elif k < 0.8:
                     s = self.text()
                     out += self.string(s)
@@ -186,7 +195,13 @@ class SpecGen:
         # content plan
         items = []
         if typed and rng.random() < 0.7:
-            items = ['typed']
+            # the typed rule belongs to the ELEMENT: a page switch in front of the opaque (grammatical only as part
+            # of an extension) does not change it
+            items = ['extsw', 'typed'] if rng.random() < 0.3 else ['typed']
+        elif not literal and typed is None and self.deep and (lid in SYNCML_LANGS or lid == 1801) and rng.random() < (0.8 if (lid in SYNCML_LANGS and token == 0x10) else 0.1):
+            # ... and an element that only shares its token number with a typed one stays untyped when the page of
+            # the typed one is switched in
+            items = ['extsw1', 'raw']
         else:
             for _ in range(rng.choice([0, 1, 1, 2, 3, 4])):
                 items.append('any')
@@ -208,6 +223,13 @@ class SpecGen:
             for it in items:
                 if it == 'typed':
                     b, e = self.typed_opaque(typed)
+                elif it == 'extsw':
+                    b, e = self.ext_ignored(to_page=None if rng.random() < 0.2 else rng.choice([p for p in sorted({x[1] for x in tags}) if p != self.tagpage] or [self.tagpage])), []
+                elif it == 'extsw1':
+                    b, e = self.ext_ignored(to_page=1 if lid in SYNCML_LANGS else 0), []
+                elif it == 'raw':
+                    raw = bytes(rng.randrange(256) for _ in range(rng.randint(1, 9)))
+                    b, e = b'\xC3' + mb(len(raw)) + raw, ['CH ' + hx(raw)]
                 else:
                     b, e = self.content_item(depth, max_depth, in_wv_typed=(typed is not None) or (lid in WV_LANGS))
                 out += b
@@ -215,6 +237,17 @@ class SpecGen:
             out += b'\x01'
         ev.append('EE ' + name)
         return out, ev
+
+    def ext_ignored(self, to_page=None):
+        """[switchPage] EXT_0|1|2 in content: no text in any language; the switchPage changes the tag code page for
+        the tags that follow, never the identity of the element it stands in"""
+        rng = self.rng
+        pages = sorted({x[1] for x in self.rows('tags')})
+        sw = b''
+        if to_page is not None or rng.random() < 0.6:
+            others = [p for p in pages if p != self.tagpage] or pages
+            sw = self.switch('tag', to_page if to_page is not None else rng.choice(others), force=True)
+        return sw + bytes([rng.choice([0xC0, 0xC1, 0xC2])])
 
     def typed_opaque(self, typed):
         rng = self.rng
@@ -276,6 +309,8 @@ class SpecGen:
                 if tok < 0xC0:
                     return sw + bytes([tok]) + mb(self.strref(var)), ['CH ' + hx(b'$(' + var + suffix + b')')]
                 return sw + bytes([tok]), []
+            if rng.random() < 0.5:
+                return self.ext_ignored(), []
             s = self.text()
             return self.string(s), ['CH ' + hx(s)]
         if r < 0.93 and self.rows('attrs') is not None:
